@@ -92,7 +92,7 @@ def eval_case(cfg, ctx=None):
       msgs.append("output shape %s, expected %s" % (out.shape, ref.shape))
       break
     e = np.abs(out - ref) / np.maximum(1, np.abs(ref))
-    if e.max() > TOL:
+    if not (e.max() <= TOL):
       r, u = np.unravel_index(e.argmax(), e.shape)
       msgs.append("kernel column %s bias %s input %s: layer %.6g, reference %.6g" %
                   (K[:, u].tolist(), bias[u] if cfg["use_bias"] else None, X[r, u].tolist(),
